@@ -31,10 +31,10 @@ Print Assumptions C19_manhattan_unsigned_exact.
 
 (* the defect fixed by fixes/C19-manhattan-unsigned-wrap.diff: abs(x1 - x2) + abs(y1 - y2) on unsigned 64-bit
    operands wraps around — d((165,177),(194,70)) = 136 but 165 - 194 is 2^64 - 29 there, and the old formula is not even symmetric
-   (modulo 2^64 it gives 78 one way and 136 the other; Numba's float conversion made it 1.8e19) *)
+   (modulo 2^64 it gives 78 one way and 2^64 - 78 the other; Numba's float conversion made it 1.8e19) *)
 Example C19_manhattan_abs_unsigned_refuted :
   w_manhattan 165 194 177 70 = 136 /\ w_manhattan 194 165 70 177 = 136 /\
-  w_manhattan_abs 165 194 177 70 = 78 /\ w_manhattan_abs 194 165 70 177 = 136 /\ wsub 165 194 = 2 ^ 64 - 29.
+  w_manhattan_abs 165 194 177 70 = 78 /\ w_manhattan_abs 194 165 70 177 = 2 ^ 64 - 78 /\ wsub 165 194 = 2 ^ 64 - 29.
 Proof. repeat split; vm_compute; reflexivity. Qed.
 
 (* Euclidean distance: the radicand x*x + y*y of euclidean_distance over exact integers is symmetric,
